@@ -67,7 +67,11 @@ def children():
     f4.add("k1", "1")
     f4.add("i", "and", fanin=["k0", "k1"])
     f4.add("o", "buf", fanin="i", output=True)
-    return {"c1": c1, "c2": c2, "f1": f1, "f2": f2, "f3": f3, "f4": f4}
+    f5 = cg.Circuit("f5")  # matches, with an internal node x (spliced in as k_x)
+    f5.add("i", "input")
+    f5.add("x", "not", fanin="i")
+    f5.add("o", "buf", fanin="x", output=True)
+    return {"c1": c1, "c2": c2, "f1": f1, "f2": f2, "f3": f3, "f4": f4, "f5": f5}
 
 
 def alphabet(names):
@@ -138,8 +142,9 @@ def alphabet(names):
                      {"g" if ch == "c1" else "w": U[0], "x": U[1]}):
             ops.append(["add_subcircuit", ch, "s", conn])
     ops.append(["add_subcircuit", "c2", "k", None])
-    for ch in ("f1", "f2", "f3", "f4"):
+    for ch in ("f1", "f2", "f3", "f4", "f5"):
         ops.append(["fill_blackbox", "k", ch])
+    ops.append(["add", "k_x", "not", [U[0]], None, False])   # the name an internal node of f5 gets when k is filled
     ops.append(["fill_blackbox", "nok", "f1"])
     # self-referential arguments: the circuit itself as the child, and an empty name
     ops.append(["fill_blackbox", "k", "SELF"])
